@@ -13,12 +13,198 @@ theorem role_step {c : Cfg} {s s' : State} {t : Nat} {lb : Lbl} (h : StepCase c 
       (s'.pc t).role ≠ .worker ∧ (s'.pc t).role ≠ .bal) := by
   cases h
   all_goals (simp only [setPc_pc, acceptTask_pc, dispatch_pc, onClaim_pc, claimLocal_pc, upd_same])
-  all_goals (rename_i hpc; first
-    | (rw [hpc]; simp [Pc.role]; done)
-    | (rename_i h1 _ ; rw [h1]; simp [Pc.role]; done)
-    | (rename_i h1 _ _; rw [h1]; simp [Pc.role]; done)
-    | (rename_i h1 _ _ _; rw [h1]; simp [Pc.role]; done)
-    | (rename_i h1 _ _ _ _; rw [h1]; simp [Pc.role]; done)
-    | (trace_state; sorry))
+  case bLdRun hpc => rcases hpc with hpc | ⟨k, hpc⟩ <;> simp [hpc, Pc.role]
+  all_goals first
+    | (simp_all [Pc.role]; done)
+
+theorem wf_step {c : Cfg} {s s' : State} {t : Nat} {lb : Lbl} (h : StepCase c s t lb s')
+    (hwf : PcWF c (s.pc t)) : PcWF c (s'.pc t) := by
+  cases h
+  all_goals (try simp only [setPc_pc, acceptTask_pc, dispatch_pc, onClaim_pc, claimLocal_pc, upd_same])
+  all_goals first
+    | trivial
+    | exact wf_afterLdRunS c _
+    | exact wf_afterLdRunB c _
+    | exact wf_afterStore c
+    | exact markChain_wf c _
+    | exact wf_afterJoinW c _
+    | exact wf_afterSubmit c _ _ _
+    | exact wf_afterSize c _ _ _ _
+    | exact wf_dispatchPc c _
+    | exact wf_claimPc c _ _
+    | exact wf_onEmpty c _
+    | exact Or.inr rfl
+    | (rename_i hpc; rw [hpc] at hwf; first | exact cont_forget c _ _ hwf | exact wf_of_cont c _ _ hwf)
+    | (rename_i hpc _ _; rw [hpc] at hwf; exact wf_of_cont c _ _ hwf)
+
+theorem Inv1.init (c : Cfg) (hc : c.WF) : Inv1 c (State.init c) := by
+  have hb : ∀ t, c.bal = some t → t ∉ c.workers := hc.2
+  refine ⟨?_, ?_, ?_, ?_, ?_, ?_, ?_, ?_, ?_, ?_, ?_, ?_, ?_⟩ <;> simp only [State.init]
+  · intro t; by_cases h1 : t ∈ c.workers <;> by_cases h2 : c.bal = some t <;> simp [h1, h2, PcWF]
+  · intro t; by_cases h1 : t ∈ c.workers <;> by_cases h2 : c.bal = some t <;> simp [h1, h2, Pc.role]
+  · intro t; by_cases h1 : t ∈ c.workers <;> by_cases h2 : c.bal = some t <;> simp [h1, h2, Pc.role]
+  · intro t; by_cases h1 : t ∈ c.workers <;> by_cases h2 : c.bal = some t <;> simp [h1, h2, Pc.role]
+  · intro t ht; simp [ht, Pc.role]
+  · intro b hb'; simp [hb b hb', hb', Pc.role]
+  · simp
+  · intro t; by_cases h1 : t ∈ c.workers <;> by_cases h2 : c.bal = some t <;> simp [h1, h2]
+  · simp
+  · simp
+  · simp
+  · intro w; by_cases h1 : w ∈ c.workers <;> by_cases h2 : c.bal = some w <;> simp [h1, h2, Pc.role]
+  · simp
+
+theorem Inv1.step {c : Cfg} {s s' : State} {t : Nat} {lb : Lbl} (I : Inv1 c s)
+    (h : StepCase c s t lb s') : Inv1 c s' := by
+  have hfr := pc_frame h
+  have hrole := role_step h
+  have hidle : s.pc t = .idle → t ∉ c.workers ∧ c.bal ≠ some t := by
+    intro hi
+    constructor
+    · intro hw; rcases I.r4 t hw with h1 | h1 <;> simp [hi, Pc.role] at h1
+    · intro hb; rcases I.r5 t hb with h1 | h1 <;> simp [hi, Pc.role] at h1
+  refine ⟨?_, ?_, ?_, ?_, ?_, ?_, ?_, ?_, ?_, ?_, ?_, ?_, ?_⟩
+  · -- wf
+    intro u
+    by_cases hu : u = t
+    · subst hu; exact wf_step h (I.wf _)
+    · rw [hfr u hu]; exact I.wf u
+  · -- r1
+    intro u hr
+    by_cases hu : u = t
+    · subst hu
+      rcases hrole with h1 | h1 | h1
+      · exact I.r1 _ (h1 ▸ hr)
+      · rw [h1] at hr; simp [Pc.role] at hr
+      · exact absurd hr h1.2.2.2.1
+    · rw [hfr u hu] at hr; exact I.r1 u hr
+  · -- r2
+    intro u hr
+    by_cases hu : u = t
+    · subst hu
+      rcases hrole with h1 | h1 | h1
+      · exact I.r2 _ (h1 ▸ hr)
+      · rw [h1] at hr; simp [Pc.role] at hr
+      · exact absurd hr h1.2.2.2.2
+    · rw [hfr u hu] at hr; exact I.r2 u hr
+  · -- r3
+    intro u hr
+    by_cases hu : u = t
+    · subst hu
+      have h3 := I.r3 u
+      have h6 := I.r6
+      cases h <;> simp_all [Pc.role]
+    · rw [hfr u hu] at hr
+      have h3 := I.r3 u hr
+      have h6 := I.r6
+      cases h <;> simp_all
+  · -- r4
+    intro u hw
+    by_cases hu : u = t
+    · subst hu
+      rcases I.r4 _ hw with h4 | h4
+      · rcases hrole with h1 | h1 | h1
+        · exact Or.inl (h1 ▸ h4)
+        · exact Or.inr h1
+        · exact absurd h4 h1.2.1
+      · cases h <;> simp_all
+    · rw [hfr u hu]; exact I.r4 u hw
+  · -- r5
+    intro u hb
+    by_cases hu : u = t
+    · subst hu
+      rcases I.r5 _ hb with h4 | h4
+      · rcases hrole with h1 | h1 | h1
+        · exact Or.inl (h1 ▸ h4)
+        · exact Or.inr h1
+        · exact absurd h4 h1.2.2.1
+      · cases h <;> simp_all
+    · rw [hfr u hu]; exact I.r5 u hb
+  · -- r6
+    have h6 := I.r6
+    cases h <;> simp_all
+  · -- run1
+    intro u hr
+    have hrun := I.run1
+    have h3 := I.r3
+    clear hrole
+    by_cases hu : u = t
+    · subst hu
+      have := hrun u
+      clear hfr I
+      cases h <;> simp_all [afterLdRunS]
+      all_goals (first | grind [upd, Pc.role, Pc.inTask, claimPc, dispatchPc, PopCtx.onEmpty, PopCtx.role, PopCtx.queue, afterLdRunS, afterLdRunB, afterJoinW, afterSubmit, afterSize, slotAvailable] | (trace_state; sorry))
+    · rw [hfr u hu] at hr
+      have h1 := hrun u hr
+      clear hfr I
+      cases h <;> simp_all
+      all_goals (first | grind [upd, Pc.role, Pc.inTask, claimPc, dispatchPc, PopCtx.onEmpty, PopCtx.role, PopCtx.queue, afterLdRunS, afterLdRunB, afterJoinW, afterSubmit, afterSize, slotAvailable] | (trace_state; sorry))
+  · -- o1
+    intro k w how
+    have o1 := I.o1
+    have o3 := I.o3
+    clear hrole hfr I
+    cases h <;> simp_all
+    all_goals (first | grind [upd, Pc.role, Pc.inTask, claimPc, dispatchPc, PopCtx.onEmpty, PopCtx.role, PopCtx.queue, afterLdRunS, afterLdRunB, afterJoinW, afterSubmit, afterSize, slotAvailable] | (trace_state; sorry))
+  · -- o2
+    intro w k hown hr
+    have o2 := I.o2
+    have o1 := I.o1
+    have o3 := I.o3
+    clear hrole
+    by_cases hu : w = t
+    · subst hu
+      clear hfr I
+      cases h <;> simp_all [Pc.role]
+      all_goals (first | grind [upd, Pc.role, Pc.inTask, claimPc, dispatchPc, PopCtx.onEmpty, PopCtx.role, PopCtx.queue, afterLdRunS, afterLdRunB, afterJoinW, afterSubmit, afterSize, slotAvailable] | (trace_state; sorry))
+    · rw [hfr w hu] at hr
+      have := o2 w
+      clear hfr I
+      cases h <;> simp_all
+      all_goals (first | grind [upd, Pc.role, Pc.inTask, claimPc, dispatchPc, PopCtx.onEmpty, PopCtx.role, PopCtx.queue, afterLdRunS, afterLdRunB, afterJoinW, afterSubmit, afterSize, slotAvailable] | (trace_state; sorry))
+  · -- o3
+    intro w hw
+    have o3 := I.o3
+    clear hrole
+    by_cases hu : w = t
+    · subst hu
+      clear hfr I
+      cases h <;> simp_all [afterLdRunS, afterLdRunB]
+      all_goals (first | grind [upd, Pc.role, Pc.inTask, claimPc, dispatchPc, PopCtx.onEmpty, PopCtx.role, PopCtx.queue, afterLdRunS, afterLdRunB, afterJoinW, afterSubmit, afterSize, slotAvailable] | (trace_state; sorry))
+    · rw [hfr w hu] at hw
+      have := o3 w hw
+      clear hfr I
+      cases h <;> simp_all
+      all_goals (first | grind [upd, Pc.role, Pc.inTask, claimPc, dispatchPc, PopCtx.onEmpty, PopCtx.role, PopCtx.queue, afterLdRunS, afterLdRunB, afterJoinW, afterSubmit, afterSize, slotAvailable] | (trace_state; sorry))
+  · -- o4
+    intro w hr hne
+    have o4 := I.o4
+    clear hrole
+    by_cases hu : w = t
+    · subst hu
+      have := o4 w
+      clear hfr I
+      cases h <;> simp_all [Pc.role]
+      all_goals (first | grind [upd, Pc.role, Pc.inTask, claimPc, dispatchPc, PopCtx.onEmpty, PopCtx.role, PopCtx.queue, afterLdRunS, afterLdRunB, afterJoinW, afterSubmit, afterSize, slotAvailable] | (trace_state; sorry))
+    · rw [hfr w hu] at hr hne
+      have := o4 w hr hne
+      clear hfr I
+      cases h <;> simp_all
+      all_goals (first | grind [upd, Pc.role, Pc.inTask, claimPc, dispatchPc, PopCtx.onEmpty, PopCtx.role, PopCtx.queue, afterLdRunS, afterLdRunB, afterJoinW, afterSubmit, afterSize, slotAvailable] | (trace_state; sorry))
+  · -- sc
+    intro u hin
+    have hsc := I.sc
+    clear hrole
+    by_cases hu : u = t
+    · subst hu
+      have := hsc u
+      clear hfr I
+      cases h <;> simp_all [Pc.inTask]
+      all_goals (first | grind [upd, Pc.role, Pc.inTask, claimPc, dispatchPc, PopCtx.onEmpty, PopCtx.role, PopCtx.queue, afterLdRunS, afterLdRunB, afterJoinW, afterSubmit, afterSize, slotAvailable] | (trace_state; sorry))
+    · rw [hfr u hu] at hin
+      have := hsc u hin
+      clear hfr I
+      cases h <;> simp_all
+      all_goals (first | grind [upd, Pc.role, Pc.inTask, claimPc, dispatchPc, PopCtx.onEmpty, PopCtx.role, PopCtx.queue, afterLdRunS, afterLdRunB, afterJoinW, afterSubmit, afterSize, slotAvailable] | (trace_state; sorry))
 
 end Babylon.Exec
